@@ -4,7 +4,10 @@
    the statements cannot be weakened silently; each is followed by Print Assumptions.
    All theorems are unbounded: any paths, interface values, length limits, engine streams,
    draws and energies.  Engines are inputs: [streams] = the frames the k-th propagate call
-   yields (first = the engine's frame for the phase point it was started from). *)
+   yields (first = the engine's frame for the phase point it was started from); the engine
+   OBJECT each call is made on is an output of the model ([c_eng]: E0 = engines[-1][0], the
+   [0-] engine; E1 = engines[0][0], the [0+] engine).  The reversibility theorems come in two
+   forms: one dynamics for both ensembles, and two different dynamics (T0, R0) / (T1, R1). *)
 From Coq Require Import ZArith QArith List Bool Lia.
 Import ListNotations.
 From Inf Require Import model.PathM model.EngineM model.WeightM model.SwapM proofs.PathP proofs.SwapP.
@@ -26,14 +29,14 @@ Print Assumptions C11_stop_rule.
 
 (* the swap never reads the success flag of propagate, so the model is the same function over
    the rule as it was before the repair of add_to_path (EngineM.propagate) *)
-Theorem C11_stop_rule_irrelevant : forall p streams init rv l r,
-  engine_call p streams init rv l r =
+Theorem C11_stop_rule_irrelevant : forall who p streams init rv l r,
+  engine_call who p streams init rv l r =
   match streams with
   | [] => Err EExhausted
   | [] :: _ => Err EExhausted
   | (f :: tl) :: rest =>
       match propagate p f tl l r with
-      | PR p' _ n => Ok (p', rest, mkCall init rv l r (maxlen p) n)
+      | PR p' _ n => Ok (p', rest, mkCall who init rv l r (maxlen p) n)
       | PRExhausted _ => Err EExhausted
       | PRError => Err ERaise
       end
@@ -70,6 +73,23 @@ Theorem C11_swap_junction : forall dumpf e0 e1 old0 old1 streams draws sp0 sp1 s
 Proof. exact retis_swap_junction. Qed.
 Print Assumptions C11_swap_junction.
 
+(* Which engine object produced which frames.  An accepted swap made its first propagate call on
+   engine0 (the [0-] engine), backward from a copy of old[0+][0], and its second on engine1 (the
+   [0+] engine), forward from a copy of old[0-][-1]; every frame of the new [0-] path except the
+   last (the shared point old[0+][1]) is a frame of the first call's answer, every frame of the
+   new [0+] path except the first (the shared point old[0-][-2]) a frame of the second call's. *)
+Theorem C11_swap_engines : forall dumpf e0 e1 old0 old1 streams draws sp0 sp1 st calls nd,
+  retis_swap_zero dumpf e0 e1 old0 old1 streams draws = Out true sp0 sp1 st calls nd ->
+  exists f10 f11 tl1 pre0 f0m2 f0l s0 s1 rest k0 k1,
+    pts (sp_path old1) = f10 :: f11 :: tl1 /\ pts (sp_path old0) = pre0 ++ [f0m2; f0l] /\
+    streams = s0 :: s1 :: rest /\
+    map c_eng calls = [E0; E1] /\ map c_rev calls = [true; false] /\ map c_used calls = [k0; k1] /\
+    map c_init calls = [copy_frame 0 f10; copy_frame 0 f0l] /\
+    pts (sp_path sp0) = rev (firstn k0 s0) ++ [dump dumpf DSecond f11] /\
+    map erase (pts (sp_path sp1)) = erase (dump dumpf DSecondLast f0m2) :: map erase (firstn k1 s1).
+Proof. exact retis_swap_engines. Qed.
+Print Assumptions C11_swap_engines.
+
 (* Everything an accepted swap determines (lengths, stop indices, statuses, the two calls). *)
 Theorem C11_swap_accepted_shape : forall dumpf e0 e1 old0 old1 streams draws sp0 sp1 st calls nd,
   retis_swap_zero dumpf e0 e1 old0 old1 streams draws = Out true sp0 sp1 st calls nd ->
@@ -100,8 +120,8 @@ Theorem C11_swap_accepted_if : forall dumpf e0 e1 old0 old1 s0 s1 rest draws f10
     retis_swap_zero dumpf e0 e1 old0 old1 (s0 :: s1 :: rest) draws =
     Out true (mkSP (mkP (rev (firstn k0 s0) ++ [dump dumpf DSecond f11]) (e_maxlen e0) 0) ACC 1)
              (mkSP path1 ACC 1) ACC
-        [mkCall (copy_frame 0 f10) true (e_i0 e0) (e_i2 e0) (e_maxlen e1 - 1) k0;
-         mkCall (copy_frame 0 f0l) false (e_i0 e1) (e_i2 e1) (e_maxlen e1 - 1) k1] 0.
+        [mkCall E0 (copy_frame 0 f10) true (e_i0 e0) (e_i2 e0) (e_maxlen e1 - 1) k0;
+         mkCall E1 (copy_frame 0 f0l) false (e_i0 e1) (e_i2 e1) (e_maxlen e1 - 1) k1] 0.
 Proof. exact retis_swap_complete. Qed.
 Print Assumptions C11_swap_accepted_if.
 
@@ -204,9 +224,18 @@ Theorem C11_quantis_junction : forall vpot_of expf e0 e1 b0 b1 old0 old1 streams
     orders (sp_path p1) = ford f0m2 :: ford H1 :: forw /\
     ford f10 < e_i2 e0 < ford H0 /\ ford f0m2 < e_i2 e0 < ford H1 /\
     (3 <= plen (sp_path p0) < e_maxlen e0)%nat /\ (3 <= plen (sp_path p1) < e_maxlen e0)%nat /\
-    st = ACC /\ length calls = 4%nat.
+    st = ACC /\ length calls = 4%nat /\ map c_eng calls = [E0; E1; E0; E1].
 Proof. exact quantis_junction. Qed.
 Print Assumptions C11_quantis_junction.
+
+(* Whatever the outcome, the propagate calls of the QuanTIS swap are made on engine0, engine1,
+   engine0, engine1 in this order (a prefix when the move stops early): one step and the backward
+   run of [0-] on the [0-] engine, one step and the forward run of [0+] on the [0+] engine. *)
+Theorem C11_quantis_engines : forall vpot_of expf e0 e1 b0 b1 old0 old1 streams draws acc p0 p1 st calls nd,
+  quantis_swap_zero vpot_of expf e0 e1 b0 b1 old0 old1 streams draws = Out acc p0 p1 st calls nd ->
+  exists k, map c_eng calls = firstn k [E0; E1; E0; E1].
+Proof. exact quantis_calls_engines. Qed.
+Print Assumptions C11_quantis_engines.
 
 (* ------------------------------------------------------------------ reversibility *)
 
@@ -250,6 +279,88 @@ Theorem C11_swap_twice_restores : forall (X : Type) (T R : X -> X) (ord : X -> Z
     orders (sp_path new0') = orders (sp_path old0) /\ orders (sp_path new1') = orders (sp_path old1).
 Proof. exact swap_twice_restores. Qed.
 Print Assumptions C11_swap_twice_restores.
+
+(* ------------------------------------------------------------------ reversibility with two different engines *)
+
+(* [0-] and [0+] driven by DIFFERENT dynamics over one phase space X (simulation.ensemble_engines
+   without quantis): engine0 = (T0, R0) for [0-], engine1 = (T1, R1) for [0+]; configurations
+   (enc/dec) and the order parameter are shared.  [det_retis2] runs the swap with the backward run
+   answered by engine0 and the forward run by engine1.  That this is the attribution the model of
+   the move itself makes: the calls of an accepted [det_retis2] are on E0 (backward, from old[0+][0])
+   and E1 (forward, from old[0-][-1]), and each stream is the answer of the engine the call is on. *)
+Theorem C11_two_engines_calls : forall (X : Type) (T0 R0 T1 R1 : X -> X) (ord enc : X -> Z) (dec : Z -> X)
+    n e0 e1 old0 old1 new0 new1 st calls nd,
+  det_retis2 X T0 R0 T1 R1 ord enc dec n e0 e1 old0 old1 = Out true new0 new1 st calls nd ->
+  exists f10 f0l,
+    first_frame (sp_path old1) = Some f10 /\ last_frame (sp_path old0) = Some f0l /\
+    map c_eng calls = [E0; E1] /\ map c_rev calls = [true; false] /\
+    map c_init calls = [copy_frame 0 f10; copy_frame 0 f0l] /\
+    streams_of_engines X T0 R0 T1 R1 ord enc dec n
+      [eng_stream X T0 R0 T1 R1 ord enc dec E0 n (copy_frame 0 f10) true;
+       eng_stream X T0 R0 T1 R1 ord enc dec E1 n (copy_frame 0 f0l) false] calls.
+Proof. exact det_retis2_engines. Qed.
+Print Assumptions C11_two_engines_calls.
+
+(* Which dynamics generates which segment.  With f11 = old[0+][1] and f0m2 = old[0-][-2] the shared
+   points: the new [0-] path is  (x, T0^-1 x, T0^-2 x, ...) reversed ++ [f11]  with x the state of
+   old[0+][0]  (T0^-1 = R0.T0.R0: the [0-] engine run backward), and the new [0+] path is
+   f0m2 :: (y, T1 y, T1^2 y, ...)  with y the state of old[0-][-1]  (the [0+] engine run forward);
+   k0, k1 = the numbers of frames the two calls used. *)
+Theorem C11_two_engines_segments : forall (X : Type) (T0 R0 T1 R1 : X -> X) (ord enc : X -> Z) (dec : Z -> X),
+  (forall x, R0 (R0 x) = x) -> (forall x, ord (R0 x) = ord x) -> (forall x, ord (R1 x) = ord x) ->
+  (forall x, dec (enc x) = x) ->
+  forall n e0 e1 old0 old1 new0 new1 st calls nd,
+  det_retis2 X T0 R0 T1 R1 ord enc dec n e0 e1 old0 old1 = Out true new0 new1 st calls nd ->
+  exists f10 f11 tl1 pre0 f0m2 f0l k0 k1,
+    pts (sp_path old1) = f10 :: f11 :: tl1 /\ pts (sp_path old0) = pre0 ++ [f0m2; f0l] /\
+    map c_eng calls = [E0; E1] /\ map c_used calls = [k0; k1] /\
+    orders (sp_path new0) = rev (map ord (itraj X T0 R0 k0 (phys X R0 dec f10))) ++ [ford f11] /\
+    orders (sp_path new1) = ford f0m2 :: map ord (traj X T1 k1 (phys X R1 dec f0l)).
+Proof. exact det_retis2_segments. Qed.
+Print Assumptions C11_two_engines_segments.
+
+(* Swapping twice restores both order sequences when the old [0-] path is a trajectory of the [0-]
+   dynamics and the old [0+] path a trajectory of the [0+] dynamics.  Only the [0-] engine is ever
+   run backward, so only ITS time-reversibility is assumed (R0.R0 = id, R0.T0.R0.T0 = id). *)
+Theorem C11_swap_twice_id_two_engines : forall (X : Type) (T0 R0 T1 R1 : X -> X) (ord enc : X -> Z) (dec : Z -> X),
+  (forall x, R0 (R0 x) = x) -> (forall x, R0 (T0 (R0 (T0 x))) = x) ->
+  (forall x, ord (R0 x) = ord x) -> (forall x, ord (R1 x) = ord x) -> (forall x, dec (enc x) = x) ->
+  forall n e0 e1 old0 old1 a0 b0 new0 new1 st calls nd new0' new1' st' calls' nd',
+  phys_path X T0 R0 ord dec a0 (sp_path old0) -> phys_path X T1 R1 ord dec b0 (sp_path old1) ->
+  minus_shape e0 (sp_path old0) -> plus_shape e1 (sp_path old1) ->
+  (e_maxlen e0 <= e_maxlen e1)%nat ->
+  det_retis2 X T0 R0 T1 R1 ord enc dec n e0 e1 old0 old1 = Out true new0 new1 st calls nd ->
+  det_retis2 X T0 R0 T1 R1 ord enc dec n e0 e1 new0 new1 = Out true new0' new1' st' calls' nd' ->
+  orders (sp_path new0') = orders (sp_path old0) /\ orders (sp_path new1') = orders (sp_path old1).
+Proof. exact swap_twice_id2. Qed.
+Print Assumptions C11_swap_twice_id_two_engines.
+
+(* ... and the swap back IS accepted (hypotheses as in C11_swap_twice_restores), its two calls
+   again on engine0 and engine1. *)
+Theorem C11_swap_twice_restores_two_engines : forall (X : Type) (T0 R0 T1 R1 : X -> X) (ord enc : X -> Z) (dec : Z -> X),
+  (forall x, R0 (R0 x) = x) -> (forall x, R0 (T0 (R0 (T0 x))) = x) ->
+  (forall x, ord (R0 x) = ord x) -> (forall x, ord (R1 x) = ord x) -> (forall x, dec (enc x) = x) ->
+  forall n e0 e1 old0 old1 a0 b0 new0 new1 st calls nd,
+  phys_path X T0 R0 ord dec a0 (sp_path old0) -> phys_path X T1 R1 ord dec b0 (sp_path old1) ->
+  minus_valid e0 (sp_path old0) -> plus_valid e1 (sp_path old1) ->
+  (e_maxlen e0 <= e_maxlen e1)%nat ->
+  (plen (sp_path old0) < e_maxlen e0)%nat -> (plen (sp_path old1) < e_maxlen e1)%nat ->
+  (plen (sp_path old0) - 1 <= n)%nat -> (plen (sp_path old1) - 1 <= n)%nat ->
+  e_i0 e0 <= e_i1 e0 <= e_i2 e0 -> e_i0 e0 < e_i2 e0 -> e_i2 e0 = e_i0 e1 ->
+  is_wf (e_move e0) || is_wf (e_move e1) = false ->
+  det_retis2 X T0 R0 T1 R1 ord enc dec n e0 e1 old0 old1 = Out true new0 new1 st calls nd ->
+  exists new0' new1' calls',
+    det_retis2 X T0 R0 T1 R1 ord enc dec n e0 e1 new0 new1 = Out true new0' new1' ACC calls' 0 /\
+    map c_eng calls' = [E0; E1] /\
+    orders (sp_path new0') = orders (sp_path old0) /\ orders (sp_path new1') = orders (sp_path old1).
+Proof. exact swap_twice_restores2. Qed.
+Print Assumptions C11_swap_twice_restores_two_engines.
+
+(* one engine for both ensembles is the special case T0 = T1, R0 = R1 *)
+Theorem C11_one_engine_special_case : forall (X : Type) (T R : X -> X) (ord enc : X -> Z) (dec : Z -> X) n e0 e1 old0 old1,
+  det_retis X T R ord enc dec n e0 e1 old0 old1 = det_retis2 X T R T R ord enc dec n e0 e1 old0 old1.
+Proof. exact det_retis_is_det_retis2. Qed.
+Print Assumptions C11_one_engine_special_case.
 
 (* ------------------------------------------------------------------ examples: the hypotheses are satisfiable *)
 
@@ -342,4 +453,54 @@ Proof.
   eexists _, _, _, _, _, _.
   split; [vm_compute; reflexivity|]. split; [reflexivity|]. split; [reflexivity|].
   split; [vm_compute; reflexivity|]. split; reflexivity.
+Qed.
+
+(* two different engines (SwapP.Clock2: engine0 moves one table entry per step, engine1 two; same
+   reversal, configurations and order parameter): old [0-] = [3,1,0,3] is a trajectory of engine0,
+   old [0+] = [1,3,5,6] one of engine1; the swap gives [4,0,1,3] (engine0 backward) / [0,3,4,1]
+   (engine1 forward), calls on E0 then E1, and swapping again restores the originals.  Had the
+   forward runs been made by engine0 as well (one dynamics T0 for both: the model of a swap that
+   propagates the [0+] part with the [0-] engine), both swaps would still be accepted but the
+   [0+] sequence would NOT be restored: the statement tells the two engines apart. *)
+Example C11_example_two_engines :
+  (forall x, Clock2.R (Clock2.R x) = x) /\ (forall x, Clock2.R (Clock2.T0 (Clock2.R (Clock2.T0 x))) = x) /\
+  (forall x, Clock2.R (Clock2.T1 (Clock2.R (Clock2.T1 x))) = x) /\
+  (forall x, Clock2.ord (Clock2.R x) = Clock2.ord x) /\ (forall x, Clock2.dec (Clock2.enc x) = x) /\
+  Clock2.T0 (0, false) <> Clock2.T1 (0, false) /\
+  phys_path Clock2.X Clock2.T0 Clock2.R Clock2.ord Clock2.dec (-3, false) (sp_path Clock2.old0) /\
+  phys_path Clock2.X Clock2.T1 Clock2.R Clock2.ord Clock2.dec (10, false) (sp_path Clock2.old1) /\
+  minus_valid Clock2.e0 (sp_path Clock2.old0) /\ plus_valid Clock2.e1 (sp_path Clock2.old1) /\
+  (exists new0 new1 calls new0' new1' calls',
+    det_retis2 Clock2.X Clock2.T0 Clock2.R Clock2.T1 Clock2.R Clock2.ord Clock2.enc Clock2.dec 10
+               Clock2.e0 Clock2.e1 Clock2.old0 Clock2.old1 = Out true new0 new1 ACC calls 0 /\
+    map c_eng calls = [E0; E1] /\
+    orders (sp_path new0) = [4; 0; 1; 3] /\ orders (sp_path new1) = [0; 3; 4; 1] /\
+    det_retis2 Clock2.X Clock2.T0 Clock2.R Clock2.T1 Clock2.R Clock2.ord Clock2.enc Clock2.dec 10
+               Clock2.e0 Clock2.e1 new0 new1 = Out true new0' new1' ACC calls' 0 /\
+    map c_eng calls' = [E0; E1] /\
+    orders (sp_path new0') = [3; 1; 0; 3] /\ orders (sp_path new1') = [1; 3; 5; 6]) /\
+  (exists m0 m1 calls m0' m1' calls',
+    det_retis Clock2.X Clock2.T0 Clock2.R Clock2.ord Clock2.enc Clock2.dec 10
+              Clock2.e0 Clock2.e1 Clock2.old0 Clock2.old1 = Out true m0 m1 ACC calls 0 /\
+    det_retis Clock2.X Clock2.T0 Clock2.R Clock2.ord Clock2.enc Clock2.dec 10
+              Clock2.e0 Clock2.e1 m0 m1 = Out true m0' m1' ACC calls' 0 /\
+    orders (sp_path m0') = [3; 1; 0; 3] /\ orders (sp_path m1') = [1; 3; 9] /\
+    orders (sp_path m1') <> orders (sp_path Clock2.old1)).
+Proof.
+  split; [exact Clock2.RR|]. split; [exact Clock2.RT0|]. split; [exact Clock2.RT1|].
+  split; [exact Clock2.ordR|]. split; [exact Clock2.decenc|]. split; [exact Clock2.T0_neq_T1|].
+  split; [split; reflexivity|]. split; [split; reflexivity|].
+  split.
+  { eexists _, [_; _], _. split; [reflexivity|]. split; [discriminate|]. split; [reflexivity|].
+    split; [intros _; reflexivity|]. split; [intros f [<-|[<-|[]]]; reflexivity|]. vm_compute. discriminate. }
+  split.
+  { eexists _, [_; _], _. split; [reflexivity|]. split; [discriminate|]. split; [reflexivity|].
+    intros f [<-|[<-|[]]]; reflexivity. }
+  split.
+  - eexists _, _, _, _, _, _.
+    split; [vm_compute; reflexivity|]. split; [reflexivity|]. split; [reflexivity|]. split; [reflexivity|].
+    split; [vm_compute; reflexivity|]. split; [reflexivity|]. split; reflexivity.
+  - eexists _, _, _, _, _, _.
+    split; [vm_compute; reflexivity|]. split; [vm_compute; reflexivity|]. split; [reflexivity|].
+    split; [reflexivity|]. vm_compute. discriminate.
 Qed.
